@@ -160,6 +160,37 @@ def parseBool (s : Bytes) : Option Bool :=
 /-- Go conversion `int32(i)` / `protoreflect.EnumNumber(i)` of an `int`. -/
 def wrapInt32 (i : Int) : Int := (i + 2147483648) % 4294967296 - 2147483648
 
+/-! ## unicode/utf8 -/
+
+def isCont (c : UInt8) : Bool := 128 ≤ c && c ≤ 191
+
+/-- `utf8.ValidString`: a byte-level recogniser of well-formed UTF-8 (Unicode Table 3-7): no overlong
+    forms (C0, C1, E0 80..9F, F0 80..8F), no surrogates (ED A0..BF), nothing above U+10FFFF (F4 90.., F5..FF),
+    no truncated sequence, no stray continuation byte. -/
+def validUTF8 : Bytes → Bool
+  | [] => true
+  | b0 :: rest =>
+    if b0 < 128 then validUTF8 rest
+    else if 194 ≤ b0 && b0 ≤ 223 then
+      match rest with
+      | b1 :: r => isCont b1 && validUTF8 r
+      | _ => false
+    else if 224 ≤ b0 && b0 ≤ 239 then
+      match rest with
+      | b1 :: b2 :: r =>
+        (if b0 == 224 then 160 ≤ b1 && b1 ≤ 191
+         else if b0 == 237 then 128 ≤ b1 && b1 ≤ 159
+         else isCont b1) && isCont b2 && validUTF8 r
+      | _ => false
+    else if 240 ≤ b0 && b0 ≤ 244 then
+      match rest with
+      | b1 :: b2 :: b3 :: r =>
+        (if b0 == 240 then 144 ≤ b1 && b1 ≤ 191
+         else if b0 == 244 then 128 ≤ b1 && b1 ≤ 143
+         else isCont b1) && isCont b2 && isCont b3 && validUTF8 r
+      | _ => false
+    else false
+
 /-! ## encoding/base64 (padded, non-strict, '\r' '\n' ignored) -/
 
 def b64val (url : Bool) (c : UInt8) : Option Nat :=
@@ -285,7 +316,7 @@ def parseScalar (sch : Schema) (orc : Oracle) (k : Kind) (text : Bytes) : Except
   | .int64 => (optToExcept (parseInt text 64)).map .int
   | .uint32 => (optToExcept (parseUint text 32)).map (fun n => Val.int (Int.ofNat n))
   | .uint64 => (optToExcept (parseUint text 64)).map (fun n => Val.int (Int.ofNat n))
-  | .string => .ok (.bytes text)
+  | .string => if validUTF8 text then .ok (.bytes text) else .error .invalidArgument   -- proto3 strings must be valid UTF-8
   | .bytes => (optToExcept (parseBytes text)).map .bytes
   | .float =>
     match orc tagFloat text with
@@ -318,9 +349,11 @@ def parseMessage (orc : Oracle) (ref : Name) (text : Bytes) : Except Err Msg :=
   else if ref = wUInt64 then (optToExcept (parseUint text 64)).map (fun n => wrapperEntries (.int (Int.ofNat n)))
   else if ref = wUInt32 then (optToExcept (parseUint text 32)).map (fun n => wrapperEntries (.int (Int.ofNat n)))
   else if ref = wBool then (optToExcept (parseBool text)).map (fun b => wrapperEntries (.bool b))
-  else if ref = wString then .ok (wrapperEntries (.bytes text))
+  else if ref = wString then (if validUTF8 text then .ok (wrapperEntries (.bytes text)) else .error .invalidArgument)
   else if ref = wBytes then (optToExcept (parseBytes text)).map (fun b => wrapperEntries (.bytes b))
-  else if ref = wFieldMask then .ok [([nPaths], .list ((splitOnByte 44 text).map .bytes))]
+  else if ref = wFieldMask then
+    -- the whole value is checked, then split
+    (if validUTF8 text then .ok [([nPaths], .list ((splitOnByte 44 text).map .bytes))] else .error .invalidArgument)
   else if ref = wTimestamp || ref = wDuration || ref = wDouble || ref = wFloat || ref = wValue || ref = wStruct then
     match orc ref text with
     | some (.msg _ es) => .ok es
